@@ -7,16 +7,44 @@
 int op_cfun(int n, char **t) {
     if (n < 2) return 0;
     const char *f = t[0];
-    if (n == 2 && (!strcmp(f, "htp_is_lws") || !strcmp(f, "htp_is_text") || !strcmp(f, "htp_is_folding_char"))) {
+    if (n == 2 && (!strcmp(f, "htp_is_lws") || !strcmp(f, "htp_is_text") || !strcmp(f, "htp_is_folding_char")
+                   || !strcmp(f, "htp_is_space") || !strcmp(f, "htp_is_separator") || !strcmp(f, "htp_is_token"))) {
         int c = (int) strtol(t[1], NULL, 10);
-        int r = !strcmp(f, "htp_is_lws") ? htp_is_lws(c) : !strcmp(f, "htp_is_text") ? htp_is_text(c) : htp_is_folding_char(c);
+        int r = !strcmp(f, "htp_is_lws") ? htp_is_lws(c) : !strcmp(f, "htp_is_text") ? htp_is_text(c)
+              : !strcmp(f, "htp_is_space") ? htp_is_space(c) : !strcmp(f, "htp_is_separator") ? htp_is_separator(c)
+              : !strcmp(f, "htp_is_token") ? htp_is_token(c) : htp_is_folding_char(c);
         printf("%d", r); return 1;
+    }
+    if (n == 2 && !strcmp(f, "htp_normalize_uri_path_inplace")) {
+        unsigned char *a; long al = hex_parse(t[1], &a); if (al < 0) return 0;
+        bstr *b = bstr_dup_mem(a, al);
+        htp_normalize_uri_path_inplace(b);
+        hex_print(stdout, bstr_ptr(b), bstr_len(b)); bstr_free(b); free(a); return 1;
+    }
+    if (n == 2 && !strcmp(f, "htp_treat_response_line_as_body")) {
+        unsigned char *a; long al = hex_parse(t[1], &a); if (al < 0) return 0;
+        printf("%d", htp_treat_response_line_as_body(a, al)); free(a); return 1;
+    }
+    if (n == 2 && !strcmp(f, "htp_parse_chunked_length")) {
+        unsigned char *a; long al = hex_parse(t[1], &a); if (al < 0) return 0;
+        int ext = 0;
+        int64_t r = htp_parse_chunked_length(a, al, &ext);
+        printf("%lld %d", (long long) r, ext); free(a); return 1;
     }
     if (n == 2 && (!strcmp(f, "htp_is_line_empty") || !strcmp(f, "htp_is_line_whitespace") || !strcmp(f, "htp_chomp"))) {
         unsigned char *a; long al = hex_parse(t[1], &a); if (al < 0) return 0;
         if (!strcmp(f, "htp_chomp")) { size_t l = (size_t) al; int r = htp_chomp(a, &l); printf("%d %zu", r, l); }
         else printf("%d", !strcmp(f, "htp_is_line_empty") ? htp_is_line_empty(a, al) : htp_is_line_whitespace(a, al));
         free(a); return 1;
+    }
+    if (n == 3 && (!strcmp(f, "bstr_util_cmp_mem_nocasenorzero") || !strcmp(f, "bstr_util_mem_index_of_mem_nocase")
+                   || !strcmp(f, "bstr_util_mem_index_of_mem_nocasenorzero"))) {
+        unsigned char *a, *b; long al = hex_parse(t[1], &a); if (al < 0) return 0;
+        long bl = hex_parse(t[2], &b); if (bl < 0) { free(a); return 0; }
+        int r = !strcmp(f, "bstr_util_cmp_mem_nocasenorzero") ? bstr_util_cmp_mem_nocasenorzero(a, al, b, bl)
+              : !strcmp(f, "bstr_util_mem_index_of_mem_nocase") ? bstr_util_mem_index_of_mem_nocase(a, al, b, bl)
+              : bstr_util_mem_index_of_mem_nocasenorzero(a, al, b, bl);
+        printf("%d", r); free(a); free(b); return 1;
     }
     if (n == 3 && (!strcmp(f, "bstr_util_cmp_mem") || !strcmp(f, "bstr_util_cmp_mem_nocase") || !strcmp(f, "bstr_util_mem_index_of_mem"))) {
         unsigned char *a, *b; long al = hex_parse(t[1], &a); if (al < 0) return 0;
